@@ -2,6 +2,7 @@ package props
 
 import (
 	"fmt"
+	"go/token"
 	"go/types"
 	"reflect"
 	"strings"
@@ -43,6 +44,7 @@ func checkC05(c *fw.Ctx) {
 		}
 		c.Min("1 tables versions", n, 16)
 	}
+	checkTablesReadOnly(c)
 	checkGenericRedaction(c)
 	checkRedactedFlows(c)
 	checkRedactMethods(c)
@@ -441,4 +443,134 @@ func checkRedactMethods(c *fw.Ctx) {
 		rv := fw.FieldStores(fn, "eventV1", "roomVersion")
 		c.Check(len(rv) >= 1, rule, spec+" keeps the room version", c.P.Pos(fn.Pos()), "", "Redact() does not carry roomVersion over to the redacted event")
 	}
+}
+
+// checkTablesReadOnly ("1 tables"): the keep-tables are package-level maps shared by every
+// redaction; a write or delete on one of them (directly, or through a parameter of a helper that
+// is handed the table) changes the redaction of some room version for the rest of the process.
+// Building a table by copying another one is fine; mutating the other one is not.
+func checkTablesReadOnly(c *fw.Ctx) {
+	rule := "1 tables"
+	construct := "the keep-tables are never written after they were built"
+	isTable := func(g *ssa.Global) bool {
+		if g.Pkg == nil || g.Pkg.Pkg.Path() != fw.ModPath {
+			return false
+		}
+		if _, ok := g.Type().Underlying().(*types.Pointer).Elem().Underlying().(*types.Map); !ok {
+			return false
+		}
+		return strings.HasSuffix(c.P.Fset.Position(g.Pos()).Filename, "redactevent.go")
+	}
+	// call sites per function, for parameters
+	sites := map[*ssa.Function][]ssa.CallInstruction{}
+	funcs := c.P.SrcFuncs()
+	withInit := append([]*ssa.Function{}, funcs...)
+	if pk := c.P.SSAPkg(""); pk != nil {
+		// package-level initialisers run in the synthesized init function
+		if ini := pk.Func("init"); ini != nil {
+			withInit = append(withInit, ini)
+		}
+	}
+	for _, f := range withInit {
+		for _, call := range fw.Calls(f) {
+			if cal := call.Common().StaticCallee(); cal != nil {
+				sites[cal] = append(sites[cal], call)
+			}
+		}
+	}
+	var origin func(v ssa.Value, depth int, seen map[ssa.Value]bool) *ssa.Global
+	origin = func(v ssa.Value, depth int, seen map[ssa.Value]bool) *ssa.Global {
+		if depth > 6 || seen[v] {
+			return nil
+		}
+		seen[v] = true
+		switch x := v.(type) {
+		case *ssa.UnOp:
+			if x.Op == token.MUL {
+				if g, ok := x.X.(*ssa.Global); ok && isTable(g) {
+					return g
+				}
+				if o := fw.LoadOrigin(x); o != ssa.Value(x) {
+					return origin(o, depth+1, seen)
+				}
+				if a, ok := x.X.(*ssa.Alloc); ok {
+					for _, ref := range *a.Referrers() {
+						if st, ok := ref.(*ssa.Store); ok && st.Addr == ssa.Value(a) {
+							if g := origin(st.Val, depth+1, seen); g != nil {
+								return g
+							}
+						}
+					}
+				}
+			}
+		case *ssa.Phi:
+			for _, e := range x.Edges {
+				if g := origin(e, depth+1, seen); g != nil {
+					return g
+				}
+			}
+		case *ssa.ChangeType:
+			return origin(x.X, depth+1, seen)
+		case *ssa.Parameter:
+			fn := x.Parent()
+			idx := -1
+			for i, p := range fn.Params {
+				if p == x {
+					idx = i
+				}
+			}
+			for _, call := range sites[fn] {
+				args := call.Common().Args
+				if idx >= 0 && idx < len(args) {
+					if g := origin(args[idx], depth+1, seen); g != nil {
+						return g
+					}
+				}
+			}
+		}
+		return nil
+	}
+	nTables, nWrites, nBad := 0, 0, 0
+	for _, f := range funcs {
+		if f.Pkg == nil || f.Pkg.Pkg.Path() != fw.ModPath {
+			continue
+		}
+		for _, b := range f.Blocks {
+			for _, ins := range b.Instrs {
+				var m ssa.Value
+				what := ""
+				switch x := ins.(type) {
+				case *ssa.MapUpdate:
+					m, what = x.Map, "written"
+				case *ssa.Call:
+					if fw.CalleeName(x) == "builtin.delete" && len(x.Call.Args) > 0 {
+						m, what = x.Call.Args[0], "deleted from"
+					}
+				}
+				if m == nil {
+					continue
+				}
+				nWrites++
+				if g := origin(m, 0, map[ssa.Value]bool{}); g != nil {
+					nBad++
+					c.Fail(rule, construct, c.P.Pos(fw.InstrPos(ins)), fmt.Sprintf("%s is %s in %s: the table is shared, so the redaction algorithm of the versions bound to it changes", g.Name(), what, fw.FuncName(f)))
+				}
+			}
+		}
+	}
+	for _, mem := range c.P.SSAPkg("").Members {
+		if g, ok := mem.(*ssa.Global); ok && isTable(g) {
+			nTables++
+		}
+	}
+	c.Count("keep-tables (package-level maps of redactevent.go)", nTables)
+	c.Count("map writes / deletes examined for a keep-table operand", nWrites)
+	if nTables == 0 {
+		c.Undecided(rule, construct, "no package-level keep-table found")
+		return
+	}
+	if nBad > 0 {
+		return
+	}
+	c.Ok(rule, construct, "", fmt.Sprintf("%d tables, %d map writes / deletes in the package, none on a table", nTables, nWrites))
 }
